@@ -201,6 +201,13 @@ def r_dstr(P, chk):
                     if st is None:
                         continue
                     ok = st.get("?rel:%s<%s" % (pn, lk)) in ((0, 0), (0, 1))
+                    if not ok:
+                        # through a local copy of the length: pos <= L and L <= length
+                        for k2, v2 in st.items():
+                            if k2.startswith("?rel:%s<" % pn) and v2 in ((0, 0), (0, 1)):
+                                mid = k2[len("?rel:%s<" % pn):]
+                                if st.get("?rel:%s<%s" % (mid, lk)) in ((0, 0), (0, 1)):
+                                    ok = True
                     chk.obligation(rid, "%s %s: `%s` used in pointer arithmetic only when <= currentStringLength" % (
                         f.where(x), f.name, pn), ok)
                     if not ok:
